@@ -257,6 +257,11 @@ def run(ctx):
             probes.append(sweep.build_cmd(sp[1], sp[2], True, sp[3]))
         elif sp[0] == "payload":
             probes.append("CONSTRUCT %s %s %d 1 PAYLOAD %s" % (sp[1][0:1].hex(), sp[1][1:2].hex(), sp[2], gen.hx(sp[3])))
+    # mode resolution under SETPOLL of the short polls and of other 9/10-byte frames (in this order, then reversed)
+    for k2, pl in ((b"\x06\x00", b"\x01"), (b"\x06\x01", b"\x01\x07"), (b"\x06\x02", b"\x00"), (b"\x06\x31", b"\x00"),
+                   (b"\x06\x3e", b"\x00\x00"), (b"\x06\x01", b"\xf0\x00"), (b"\x06\x00", b"\x03"), (b"\x06\x31", b"\x01")):
+        probes.append("PARSE 3 1 1 " + gen.ubx_frame(k2[0], k2[1], pl).hex())
+    probes += [p for p in reversed(probes[-8:])]
     # lookups that must keep failing / keep their answer whatever was parsed before
     for code in (1, 2, 3, 4, 5):
         probes.append("CFGNAME2KEY CFG_0x%x" % ((code << 28) | 0x0990099))
